@@ -152,7 +152,7 @@ func ReadUint16Slice(r Reader, c []uint16) (n int64, err error) {
 
 	// Discard what was peeked
 	var inc int
-	if inc, err = r.Discard(len(slice)); err != nil {
+	if inc, err = r.Discard(buffered << 1); err != nil {
 		return n + int64(inc), err
 	}
 
@@ -231,7 +231,7 @@ func ReadUint32Slice(r Reader, c []uint32) (n int64, err error) {
 
 	// Discard what was peeked
 	var inc int
-	if inc, err = r.Discard(len(slice)); err != nil {
+	if inc, err = r.Discard(buffered << 2); err != nil {
 		return n + int64(inc), err
 	}
 
@@ -310,7 +310,7 @@ func ReadUint64Slice(r Reader, c []uint64) (n int64, err error) {
 
 	// Discard what was peeked
 	var inc int
-	if inc, err = r.Discard(len(slice)); err != nil {
+	if inc, err = r.Discard(buffered << 3); err != nil {
 		return n + int64(inc), err
 	}
 
